@@ -2,21 +2,30 @@
 # usage: check.sh <property> <quick|thorough>   |   check.sh replay <file>      (cwd = /verif)
 # Rebuilds the simulator against /repo's current working tree (hooks tag on), then runs
 # the check.  exit 0 = held, 1 = VIOLATION line printed, 2 = build/harness trouble.
+# VERIF_REPO=<dir> builds against another checkout instead (background soak runs against
+# a snapshot of /repo while /repo itself is being edited); registered commands never set it.
 set -u
 export GOFLAGS=-mod=mod GOPROXY=off GOSUMDB=off GOTOOLCHAIN=local
 ROOT="$(cd "$(dirname "$0")" && pwd)"
 export VERIF_ROOT="$ROOT"
+REPO="${VERIF_REPO:-/repo}"
 mkdir -p "$ROOT/bin" "$ROOT/evidence" "$ROOT/replays"
-cp /repo/go.sum "$ROOT/sim/go.sum" 2>/dev/null
+cp "$REPO/go.sum" "$ROOT/sim/go.sum" 2>/dev/null
+MODFLAG=""
+if [ "$REPO" != "/repo" ]; then
+  sed "s#=> /repo\$#=> $REPO#" "$ROOT/sim/go.mod" > "$ROOT/bin/alt.go.mod"
+  cp "$REPO/go.sum" "$ROOT/bin/alt.go.sum"
+  MODFLAG="-modfile=$ROOT/bin/alt.go.mod"
+fi
 NEED_RACE=0
 if [ "${1:-}" = "C17" ]; then NEED_RACE=1; fi
 if [ "${1:-}" = "replay" ] && grep -q '"rule": "C17.race' "${2:-/dev/null}" 2>/dev/null; then NEED_RACE=1; fi
 (
   flock 9
   cd "$ROOT/sim" || exit 2
-  go build -tags verif -o "$ROOT/bin/artsim" . || exit 2
+  go build $MODFLAG -tags verif -o "$ROOT/bin/artsim" . || exit 2
   if [ "$NEED_RACE" = 1 ]; then
-    go build -tags verif -race -o "$ROOT/bin/artsim-race" . || exit 2
+    go build $MODFLAG -tags verif -race -o "$ROOT/bin/artsim-race" . || exit 2
   fi
 ) 9>"$ROOT/bin/.build.lock" || { echo "build failed" >&2; exit 2; }
 if [ "${1:-}" = "replay" ]; then
